@@ -1,4 +1,5 @@
 import OpusProofs.ExtRepFinal
+import OpusProofs.ExtRanges
 /-
   Property C16 — "Packet extensions round-trip through generate, parse and repacketize".
 
@@ -216,6 +217,104 @@ theorem parse_canonical (l : List Ext) (nbF : Nat) (hnf : nbF ≤ 48) (hv : ∀ 
     (serRefs 0 0 l).map (ExtRef.toExt (serBytes 0 l)) = l.map normExt :=
   parse_ser l nbF hnf hv hs cap hcap
 
+/-- **int_ranges (iterator).**  The model computes with unbounded integers; for `len < 2^31` bytes of padding the C
+    code's `opus_int32`/`int` arithmetic agrees with it:
+    (1) in every state a caller can reach (`init`, then any `next`/`reset`/`set_frame_max`) all integer fields of
+        `OpusExtensionIterator` — `len`, `curr_len ≥ -1`, `repeat_len`, `src_len`, `trailing_short_len` — and the
+        pointer differences `curr_data - data`, `curr_data0 - repeat_data ≥ 0` lie in `opus_int32`;
+        `nb_frames, repeat_frame ≤ 48`, `curr_frame ≤ 302`;
+    (2) in the lacing loop of `skip_extension_payload`, called with any `len0 ≤ INT32_MAX`, after every pass
+        `len ∈ [-255, len0]`, `1 ≤ header_size ≤ 2^23`, `0 ≤ bytes ≤ 2139095040` (`lacingTrace` lists these
+        triples; its last entry is what the model's `lacing` returns). -/
+theorem int_ranges_iter (d : Bytes) (hb : BytesOk d) (hl : (d.length : Int) ≤ 2147483647) (nbFrames : Nat) :
+    (∀ it, Reach d nbFrames it →
+      InI32 it.len ∧ InI32 it.currLen ∧ -1 ≤ it.currLen ∧ InI32 it.repeatLen ∧ InI32 it.srcLen ∧ InI32 it.tsl ∧
+      InI32 it.currData ∧ InI32 ((it.currData : Int) - it.repeatData) ∧ 0 ≤ (it.currData : Int) - it.repeatData ∧
+      it.nbFrames ≤ 48 ∧ it.repeatFrame ≤ 48 ∧ it.currFrame ≤ 302) ∧
+    (∀ (p : Nat) (len0 : Int), len0 ≤ 2147483647 → ∀ t ∈ lacingTrace d.toArray p len0 0 0,
+      -255 ≤ t.1 ∧ t.1 ≤ len0 ∧ 1 ≤ t.2.2 ∧ t.2.2 ≤ 8388608 ∧ t.2.1 ≤ 2139095040 ∧
+      InI32 t.1 ∧ InI32 t.2.1 ∧ InI32 t.2.2) ∧
+    (∀ (p : Nat) (len0 : Int) (p' : Nat) (len' : Int) (bytes' hs' : Nat),
+      lacing d.toArray p len0 0 0 = .ok (some (p', len', bytes', hs')) →
+      (len', bytes', hs') ∈ lacingTrace d.toArray p len0 0 0) := by
+  have hbb : ∀ (i x : Nat), d.toArray[i]? = some x → x < 256 := by
+    intro i x hx
+    simp only [List.getElem?_toArray] at hx
+    exact hb x (List.mem_of_getElem? hx)
+  refine ⟨fun it hr => ?_, fun p len0 h0 => lacing_ranges d.toArray hbb p len0 h0,
+    fun p len0 _ _ _ _ h => lacing_mem_trace _ _ _ _ _ h⟩
+  obtain ⟨h1, h2, h3, h4, h5, h6, h7, h8, h9, h10⟩ := hr.ranges hb hl
+  have := (hr.box hb).num
+  unfold BoxN at this
+  exact ⟨h1, h2, by omega, h3, h4, h5, h6, h7, h8, h9, h10⟩
+
+/-- **int_ranges (count).**  The `int count` of `count` / `count_ext` / `parse` / `parse_ext` (and every
+    `nb_frame_exts[]`, `nb_frames_cum[]` entry, which are partial sums of it) is the length of the list `l` of
+    `count_parse_agree`; it is at most `nb_frames · len`.  So it fits an `int` whenever `nb_frames · len < 2^31`
+    (always for `len ≤ 44 739 242`, i.e. any packet below 42 MB).  The bound is reached up to one byte
+    (`int_ranges_count_tight`): for `len ≥ 2^31/48` a crafted padding makes `count` exceed `INT_MAX` — signed
+    overflow in `opus_packet_extensions_count` / `_count_ext` (in `parse` the capacity test `count == *nb_extensions`
+    stops the loop first). -/
+theorem int_ranges_count (d : Bytes) (hb : BytesOk d) (nbFrames : Nat) (it : Iter) (l : List ExtRef) (s : Step)
+    (hinit : iterInit d d.length nbFrames = .ok it) (hall : iterAll it = .ok (l, s)) :
+    (l.length : Int) ≤ nbFrames * d.length ∧
+    ((nbFrames : Int) * d.length ≤ 2147483647 → InI32 l.length ∧ ∀ f, InI32 (frameCount l f)) := by
+  have h := iterAll_count_le d hb nbFrames hinit hall
+  refine ⟨h, fun hle => ?_⟩
+  have hfc : ∀ f, frameCount l f ≤ l.length := by
+    intro f; unfold frameCount; exact List.length_filter_le _ _
+  unfold InI32
+  refine ⟨by omega, fun f => ?_⟩
+  have := hfc f
+  omega
+
+/-- `k` one-byte extensions (`06` = ID 3, no payload) followed by "repeat these extensions" (`04`): `48·k`
+    extensions from `k + 1` bytes (here `k = 3`: 144 extensions from 4 bytes). -/
+theorem int_ranges_count_tight : ∃ refs, parse [6, 6, 6, 4] 4 144 48 = .ok refs ∧ refs.length = 144 := by
+  let exMany : Array Ext :=
+    ((List.range 48).flatMap (fun (f : Nat) => List.replicate 3 ({ id := 3, frame := (f : Int), data := [], len := 0 } : Ext))).toArray
+  obtain ⟨_, refs, h1, h2, _⟩ := generate_parse exMany 48 (by decide) (allValid_of_all _ _ (by decide +kernel)) 4
+    (by decide +kernel) 144 (by decide +kernel)
+  have e : serAll exMany.size (queues exMany 48) 0 0 = [6, 6, 6, 4] := by decide +kernel
+  rw [e] at h1
+  exact ⟨refs, h1, h2⟩
+
+/-- **int_ranges (generate).**  For `len ≤ INT32_MAX`:
+    (1) the position never leaves `[0, len]` (the run's write log has at most `len` bytes and a successful call
+        returns at most `len`), so every `len - pos`, every `pos + k` after a passed check `len - pos < k` and the
+        final `padding = len - pos`, `pos += padding` are in `opus_int32`: the RETURN VALUE IS EXACT for every
+        `len < 2^31` — a list whose total size exceeds the buffer is refused by one of the checks, the total is
+        never formed as a sum;
+    (2) the only request that can itself overflow is `length_bytes + ext->len` of a long extension: exact for
+        `ext->len ≤ 2139095039`, `2^31 + 1` at `ext->len = 2139095040` (needs a 2 GB payload);
+    (3) the ID byte is a byte value for admissible lengths; for a short ID with an inadmissible `ext->len`
+        (rejected two lines later) the `int` sum `2·id + len` wraps only for `ext->len > 2147483585`;
+    (4) `nb_repeated = repeat_count·(nb_frames − (f+1))` and `written + nb_repeated` are at most `nb_extensions`.
+    Not in the model: the write-only variable `trailing_short_len` of `generate` (`+= extensions[i].len` on
+    unvalidated lengths, see NOT_COVERED). -/
+theorem int_ranges_generate :
+    (∀ (dry : Bool) (len : Int) (exts : Array Ext) (nbFrames : Nat) (pad : Bool), ExtsOk exts → 0 ≤ len → len ≤ 2147483647 →
+      InI32 ((runOpsLog dry len (genOps exts nbFrames).ops #[]).size) ∧
+      ((runOpsLog dry len (genOps exts nbFrames).ops #[]).size : Int) ≤ len ∧
+      ∀ out, generate dry len exts nbFrames pad = .ok out → InI32 out.size ∧ (out.size : Int) ≤ len) ∧
+    (∀ len pos k : Int, len ≤ 2147483647 → 0 ≤ pos → pos ≤ len → 0 ≤ k → ¬ (len - pos < k) →
+      InI32 (len - pos) ∧ 0 ≤ len - pos ∧ InI32 (pos + k) ∧ 0 ≤ pos + k ∧ pos + k ≤ len ∧ InI32 (pos + (len - pos))) ∧
+    (∀ n : Int, 0 ≤ n → n ≤ 2139095039 →
+      InI32 (n / 255) ∧ InI32 (1 + n / 255) ∧ InI32 (1 + n / 255 + n) ∧ 0 ≤ n % 255 ∧ n % 255 < 255) ∧
+    ¬ InI32 (1 + (2139095040 : Int) / 255 + 2139095040) ∧
+    (∀ id l : Int, 3 ≤ id → id ≤ 127 →
+      (0 ≤ l → l ≤ 1 → 0 ≤ 2 * id + l ∧ 2 * id + l ≤ 255) ∧ (id ≤ 31 → InI32 l → l ≤ 2147483585 → InI32 (2 * id + l))) ∧
+    (∀ (a : List Ext) (later : List (List Ext)) (w n : Nat), w + a.length + total later = n →
+      blockR a later ≤ a.length ∧ blockR a later * later.length ≤ n ∧
+      w + blockR a later + blockR a later * later.length ≤ n) := by
+  refine ⟨fun dry len exts nbFrames pad hE h0 hl => ?_, fun len pos k hl hp hpl hk hpass => gen_pos_ranges len pos k hl hp hpl hk hpass,
+    fun n h0 h1 => gen_long_ranges n h0 h1, gen_long_tight, fun id l h3 h127 => gen_idbyte_ranges id l h3 h127,
+    fun a later w n h => repeat_count_le a later w n h⟩
+  have h1 := generate_log_within dry len exts nbFrames hE h0
+  refine ⟨by unfold InI32; omega, h1, fun out ho => ?_⟩
+  have := generate_size_le hE ho
+  exact ⟨by unfold InI32; omega, this⟩
+
 /-! ### Non-vacuity: concrete inputs satisfy the hypotheses -/
 
 /-- Padding with a repeat indicator (frame 0: short ext id 5 with payload, long ext id 40; `04` =
@@ -272,5 +371,15 @@ example : ∃ l, parse (serAll exExts.size (queues exExts 2) 0 0) (serAll exExts
     l.length = exExts.size := by
   obtain ⟨_, refs, h1, h2, _⟩ := generate_parse exExts 2 (by decide) (allValid_of_all _ _ (by decide +kernel)) 1000 (by decide +kernel) 10 (by decide +kernel)
   exact ⟨refs, h1, h2⟩
+
+/-- hypotheses of the `int_ranges_*` theorems. -/
+example : BytesOk exPad ∧ (exPad.length : Int) ≤ 2147483647 := by decide
+example : lacingTrace #[255, 3, 0] 0 300 0 0 = [(44, 255, 1), (40, 258, 2)] := by decide +kernel
+example : ∃ it l s, iterInit exPad exPad.length 2 = .ok it ∧ iterAll it = .ok (l, s) ∧
+    (l.length : Int) ≤ (2 : Nat) * exPad.length := by
+  obtain ⟨it, l, s, h1, h2, _⟩ := count_parse_agree exPad (by decide) 2 (by decide)
+  exact ⟨it, l, s, h1, h2, (int_ranges_count exPad (by decide) 2 it l s h1 h2).1⟩
+example : blockR (allOf exExts 0) [allOf exExts 1] * 1 ≤ 4 :=
+  (int_ranges_generate.2.2.2.2.2 (allOf exExts 0) [allOf exExts 1] 0 4 (by decide +kernel)).2.1
 
 end OpusProps.C16
